@@ -323,12 +323,28 @@ func (p *printer) writeNode(n graph.Node) {
 func (p *printer) writePorts(port, cp string) {
 	if port != "" {
 		p.buf.WriteByte(':')
-		p.buf.WriteString(quoteID(port))
+		port = quoteID(port)
+		if isCompassPoint(port) {
+			// A bare compass point word after a node ID is read
+			// as a compass point, so a port with such a name is
+			// quoted to keep it a port name.
+			port = strconv.Quote(port)
+		}
+		p.buf.WriteString(port)
 	}
 	if cp != "" {
 		p.buf.WriteByte(':')
 		p.buf.WriteString(cp)
 	}
+}
+
+// isCompassPoint reports whether s is one of the DOT compass point values.
+func isCompassPoint(s string) bool {
+	switch s {
+	case "n", "ne", "e", "se", "s", "sw", "w", "nw", "c", "_":
+		return true
+	}
+	return false
 }
 
 func nodeID(n graph.Node) string {
